@@ -209,6 +209,14 @@ func c13Run(c *mon.Ctx) {
 				}
 				c.Count("polygons_checked")
 			}
+			// queries must leave nothing behind: the same serialisation and radius afterwards
+			circ.Rect()
+			circ.Valid()
+			circ.Intersects(geojson.NewRect(geometry.Rect{Min: center, Max: center}))
+			if js2 := circ.JSON(); js2 != wantJS || circ.Meters() != m || circ.Center() != center {
+				c.Violation("changed-by-query", "a circle serialises differently (or reports another radius) after it has been queried", mkc("JSON after queries", js2, wantJS))
+			}
+			c.Count("requeried_after_use")
 		})
 		// ---- circle / circle ----
 		c.Try(func() {
@@ -316,6 +324,10 @@ func c13Run(c *mon.Ctx) {
 				if !math.IsNaN(m) && !math.IsInf(m, 0) {
 					circ.Rect()
 					circ.Polygon()
+					circ.Valid()
+					if circ.JSON() != js || circ.Meters() != m {
+						c.Violation("changed-by-query", "a circle with an out-of-domain radius serialises differently after it has been queried", c13Case{Meters: m, Steps: steps, Got: circ.JSON(), Want: js})
+					}
 				}
 				c.Count("out_of_domain_radii")
 			})
@@ -335,6 +347,6 @@ func init() {
 		Rule:        "random circles (centres biased to poles and antimeridian; radii sub-metre .. half the circumference incl. boundary values; step counts -5..4096) each probed by 10 points placed at controlled reference distances (r(1+-10^-k), r+-(1.001..3) tol, r+-1.0001 tol, inside the undecided band, interior, exterior, the centre) on random bearings and on/between polygon vertices, through Point and SimplePoint, Contains/Intersects/Within in both operand orders; monotonicity in the radius; JSON layout and reparse (m and km); closedness, centre containment and centring of the polygon approximation; circle/circle pairs placed around the containment and intersection boundaries. Non-trivial = distinct probe within 10 tolerances of the circle.",
 		Assumptions: []string{"reference distance: internal/sphere; decided only outside +-tol(1+1e-6), tol = max(1 mm, 1e-8 r)", "circle/circle is asserted away from poles and the antimeridian and with an allowance of 1e-5 of the radii for the library's centre-distance estimate", "known finding F22 (radius within 1 m of half the circumference) is matched with a magnitude bound"},
 		Run:         c13Run,
-		MustSee:     []string{"probes_decided", "probes_in_undecided_band", "monotone_checked", "km_checked", "polygons_checked", "polygon_centred_checked", "circle_pairs", "circle_contains_circle_true", "out_of_domain_radii", "large_circle_pairs"},
+		MustSee:     []string{"probes_decided", "probes_in_undecided_band", "monotone_checked", "km_checked", "polygons_checked", "polygon_centred_checked", "circle_pairs", "circle_contains_circle_true", "out_of_domain_radii", "large_circle_pairs", "requeried_after_use"},
 	})
 }
